@@ -267,7 +267,7 @@ var c07Pool = []string{
 func init() {
 	run.Register(&run.Prop{
 		ID: "C07", Level: "fault_enumeration", MinNontrivial: 100, HangFails: true,
-		Rule: "a case is (program, input, compile option); the fault is a cancellation at the k-th interpreter poll of ctx.Done(), enumerated for every k = 1..min(P+2,400) and 150 sampled k up to P (P = polls of the uncancelled run, capped at 20000). The oracle compares emitted events with the uncancelled run's events before its k-th poll, requires ctx.Err() next, exhaustion afterwards, no poll after the closing one, no panic; independently every iterator is called three more times after it returned false and driven on after every error value. Non-trivial = the uncancelled run emitted something or polled more than 3 times.",
+		Rule:        "a case is (program, input, compile option); the fault is a cancellation at the k-th interpreter poll of ctx.Done(), enumerated for every k = 1..min(P+2,400) and 150 sampled k up to P (P = polls of the uncancelled run, capped at 20000). The oracle compares emitted events with the uncancelled run's events before its k-th poll, requires ctx.Err() next, exhaustion afterwards, no poll after the closing one, no panic; independently every iterator is called three more times after it returned false and driven on after every error value. Non-trivial = the uncancelled run emitted something or polled more than 3 times.",
 		Assumptions: []string{"the VM polls ctx.Done() once per instruction, so a Done() call count is an instruction index (execute.go)", "poll counts are deterministic for programs without now/input side effects (checked: the never-reached comparison would fire otherwise)"},
 		Body: func(c *run.Ctx) {
 			inputs := []any{nil, 1, []any{1, 2, 3}, map[string]any{"a": []any{1, 2}, "b": map[string]any{"c": 3}}, "abcab", []any{[]any{1, 2}, []any{3}, map[string]any{"a": 5}},
